@@ -244,6 +244,37 @@ func (c *Ctx) assert(cond *Term, msg string) {
 // ---------------------------------------------------------------------------
 // Havoc
 
+// fewValues reports whether integer term t has at most n feasible values within +-2^31 on this path.
+func (c *Ctx) fewValues(t *Term, n int) bool {
+	var excl []*Term
+	w := t.S.W
+	if c.IntMode {
+		excl = append(excl, ILe(IntConst64(-1<<31), t), ILe(t, IntConst64(1<<31)))
+	} else {
+		excl = append(excl, BVSle(BVConst64(-1<<31, w), t), BVSle(t, BVConst64(1<<31, w)))
+		// and nothing outside that range
+		if r, _, _ := c.S.CheckPC(c.pc, []*Term{Not(And(excl...))}, false); r != Unsat {
+			return false
+		}
+	}
+	for i := 0; i <= n; i++ {
+		r, m, _ := c.S.CheckPC(c.pc, excl, true)
+		c.st.FeasQueries++
+		if r == Unsat {
+			return true
+		}
+		if r != Sat || m == nil {
+			return false
+		}
+		val := Eval(t, m, map[*Term]*Term{})
+		if val == nil || !val.IsConst() {
+			return false
+		}
+		excl = append(excl, Not(Eq(t, val)))
+	}
+	return false
+}
+
 func (c *Ctx) havocType(t types.Type, tag string) Value {
 	switch u := t.Underlying().(type) {
 	case *types.Basic:
@@ -257,6 +288,8 @@ func (c *Ctx) havocType(t types.Type, tag string) Value {
 			return v
 		case u.Info()&types.IsFloat != 0:
 			return Var(c.freshName(tag), SFP)
+		case u.Info()&types.IsComplex != 0:
+			return &StructVal{F: []Value{Var(c.freshName(tag), SFP), Var(c.freshName(tag), SFP)}}
 		case u.Info()&types.IsString != 0:
 			return c.str("<havoc>")
 		}
@@ -651,7 +684,10 @@ func registerBigModels() {
 		s := a[1].(*StrVal)
 		base, okb := c.constInt(a[2].(*Term), true)
 		if !okb {
-			c.unsupported("big.Int.SetString symbolic base")
+			base = c.concretize(a[2].(*Term), true, -1<<31, 1<<31, "big.Int.SetString base")
+		}
+		if base != 0 && (base < 2 || base > big.MaxBase) {
+			c.goPanic("big", fmt.Sprintf("invalid number base %d", base)) // math/big/natconv.go: nat.scan
 		}
 		if cs, ok := s.concrete(); ok {
 			v, good := new(big.Int).SetString(cs, int(base))
@@ -1031,6 +1067,12 @@ func registerLibModels() {
 	m["math.RoundToEven"] = f1(func(x *Term) *Term { return FPRound("RNE", x) })
 	m["math.Round"] = f1(func(x *Term) *Term { return FPRound("RNA", x) })
 	m["math.Abs"] = f1(FPAbs)
+	m["strings.Clone"] = func(c *Ctx, fn *ssa.Function, a []Value) Value { return a[0] }
+	m["internal/stringslite.Clone"] = m["strings.Clone"]
+	m["math.Hypot"] = func(c *Ctx, fn *ssa.Function, a []Value) Value {
+		// the portable implementation behind the assembly stub
+		return c.CallFn(fn.Pkg.Func("hypot"), a, nil)
+	}
 	m["math.IsNaN"] = f1(FPIsNaN)
 	m["math.Signbit"] = func(c *Ctx, fn *ssa.Function, a []Value) Value {
 		x := a[0].(*Term)
@@ -1124,6 +1166,10 @@ func registerLibModels() {
 		if x.IsConst() && y.IsConst() {
 			return FPConst(math.Mod(x.F, y.F))
 		}
+		if c.Ex.Havoc["math.Mod"] {
+			c.Ex.noteModel("havoc:math.Mod (any float64 result)")
+			return c.havocResult(fn)
+		}
 		c.unsupported("math.Mod on symbolic operands (C fmod has no SMT-LIB counterpart)")
 		return nil
 	}
@@ -1131,6 +1177,16 @@ func registerLibModels() {
 		x, y := a[0].(*Term), a[1].(*Term)
 		if x.IsConst() && y.IsConst() {
 			return FPConst(math.Pow(x.F, y.F))
+		}
+		// constant base, exponent converted from an integer the path condition confines to
+		// a few values (10 ** float64(-ndigits)): case split on the integer
+		if x.IsConst() && (y.Op == "to_fp_signed" || y.Op == "to_fp_int") && c.fewValues(y.Args[0], 40) {
+			v := c.concretize(y.Args[0], true, -1<<31, 1<<31, "math.Pow exponent")
+			return FPConst(math.Pow(x.F, float64(v)))
+		}
+		if c.Ex.Havoc["math.Pow"] {
+			c.Ex.noteModel("havoc:math.Pow (any float64 result)")
+			return c.havocResult(fn)
 		}
 		c.unsupported("math.Pow on symbolic operands")
 		return nil
@@ -1153,6 +1209,12 @@ func registerLibModels() {
 		return c.indexByte(c.sliceBytes(a[0].(SliceVal)), a[1].(*Term))
 	}
 	m["bytes.IndexByte"] = m["internal/bytealg.IndexByte"]
+	m["internal/bytealg.Compare"] = func(c *Ctx, fn *ssa.Function, a []Value) Value {
+		x := &StrVal{B: c.sliceBytes(a[0].(SliceVal))}
+		y := &StrVal{B: c.sliceBytes(a[1].(SliceVal))}
+		return Ite(c.strLess(x, y, false), c.goInt(-1), Ite(c.strLess(y, x, false), c.goInt(1), c.goInt(0)))
+	}
+	m["bytes.Compare"] = m["internal/bytealg.Compare"]
 	m["strings.Index"] = func(c *Ctx, fn *ssa.Function, a []Value) Value {
 		return c.indexStr(a[0].(*StrVal).B, a[1].(*StrVal).B)
 	}
@@ -1314,6 +1376,10 @@ func registerLibModels() {
 	m["strconv.ParseInt"] = func(c *Ctx, fn *ssa.Function, a []Value) Value {
 		s := a[0].(*StrVal)
 		base, okb := c.constInt(a[1].(*Term), true)
+		if !okb {
+			// symbolic base: case split over the feasible values (callers validate it to a small range)
+			base, okb = c.concretize(a[1].(*Term), true, -1<<31, 1<<31, "strconv base"), true
+		}
 		bits, okc := c.constInt(a[2].(*Term), true)
 		if cs, ok := s.concrete(); ok && okb && okc {
 			v, err := strconv.ParseInt(cs, int(base), int(bits))
